@@ -66,24 +66,28 @@ class CFG:
 
     def _stmt(self, st, ins):
         if isinstance(st, ast.If):
-            t = self._new("test", st.test, st)
+            # the test node carries the condition with leading `not`s removed; the edge labels say what *that* condition is
+            # on each branch (so `if not c: B else: A` and `if c: A else: B` give the same graph)
+            test, flip = _strip_not(st.test)
+            t = self._new("test", test, st)
             self.of_stmt[st] = t
             self._connect(ins, t)
-            a = self._seq(st.body, [(t, True)])
-            b = self._seq(st.orelse, [(t, False)]) if st.orelse else [(t, False)]
+            a = self._seq(st.body, [(t, not flip)])
+            b = self._seq(st.orelse, [(t, flip)]) if st.orelse else [(t, flip)]
             return a + b
         if isinstance(st, ast.While):
-            t = self._new("test", st.test, st)
+            test, flip = _strip_not(st.test)
+            t = self._new("test", test, st)
             self.of_stmt[st] = t
             self._connect(ins, t)
             ctx = {"head": t, "breaks": [], "stmt": st}
             self.loops.append(ctx)
             self.loop_stack.append(ctx)
-            b = self._seq(st.body, [(t, True)])
+            b = self._seq(st.body, [(t, not flip)])
             self.loop_stack.pop()
             for e, lab in b:
                 self._edge(e, t, lab)
-            out = [(t, False)]
+            out = [(t, flip)]
             const_true = isinstance(st.test, ast.Constant) and bool(st.test.value)
             if const_true:
                 out = []
@@ -320,6 +324,14 @@ def _target_names(t):
     elif isinstance(t, ast.Starred):
         out |= _target_names(t.value)
     return out
+
+
+def _strip_not(test):
+    flip = False
+    while isinstance(test, ast.UnaryOp) and isinstance(test.op, ast.Not):
+        test = test.operand
+        flip = not flip
+    return test, flip
 
 
 def _walrus(e):
